@@ -3,6 +3,7 @@
 package upload
 
 import (
+	"bytes"
 	"crypto/sha256"
 	"encoding/hex"
 	"encoding/json"
@@ -188,6 +189,9 @@ func TestVerifUploadConc(t *testing.T) {
 		p8 := verifrt.NewResult("C08.sched")
 		p7.SetFile(fmt.Sprintf("C07.conc.part%d.json", b))
 		p8.SetFile(fmt.Sprintf("C08.sched.part%d.json", b))
+		c01conc = verifrt.NewResult("C01.conc")
+		c01conc.SetFile(fmt.Sprintf("C01.conc.part%d.json", b))
+		defer c01conc.Write()
 		for _, check := range []string{"C07.conc", "C08.sched"} {
 			if _, rp := verifrt.Replaying(); !rp && check != "C07.conc" {
 				continue
@@ -219,6 +223,17 @@ func TestVerifUploadConc(t *testing.T) {
 			x.Inconc(s)
 		}
 	}
+	c01 := verifrt.NewResult("C01.conc")
+	c01.Rule = "the concurrent upload histories of C07.conc/C08.sched (2-4 uploaders under the scheduler, kills after any fs/HTTP call, scripted answers, several rounds): no request carries the counter the configuration does not approve, whatever a killed uploader left behind in local/. distinct = histories"
+	parts1, _ := filepath.Glob(filepath.Join(verifrt.OutDir(), "C01.conc.part*.json"))
+	for _, p := range parts1 {
+		if pr, err := verifrt.LoadResult(p); err == nil {
+			c01.Merge(pr)
+		}
+		os.Remove(p)
+	}
+	c01.Require("request-scanned")
+	c01.Write()
 	c07.Require("exclusive-create-lost", "report-existed-at-check", "strategy:park", "strategy:pct", "strategy:handover")
 	c08.Require("answer-with-broken-body", "second-report-file-for-week", "lock-contention", "status:200", "status:4xx", "status:5xx", "status:dropped", "kill", "kill-between-ack-and-marker", "kill-holding-lock", "retry-after-5xx", "all-acked-once")
 	for _, x := range []*verifrt.Result{c07, c08} {
@@ -232,6 +247,10 @@ func hashOf(b []byte) string {
 	h := sha256.Sum256(b)
 	return hex.EncodeToString(h[:8])
 }
+
+// c01conc: no request of a concurrent history (with kills) carries a name the
+// configuration does not approve (C01). Set per batch.
+var c01conc *verifrt.Result
 
 func runConcScenario(c07, c08 *verifrt.Result, base string, s *concScenario, rnd *verifrt.Rand, i int) {
 	td := newTdir(base)
@@ -564,6 +583,17 @@ func runConcScenario(c07, c08 *verifrt.Result, base string, s *concScenario, rnd
 			acks[j].Body = reqs[j].Body
 			acks[j].Sum = reqs[j].Sum
 			acks[j].Len = reqs[j].Len
+		}
+	}
+	if c01conc != nil {
+		c01conc.Eval()
+		c01conc.Distinct(fmt.Sprint(i))
+		for _, q := range reqs {
+			c01conc.Hit("request-scanned")
+			if bytes.Contains(q.Body, []byte("private/thing")) {
+				c01conc.Violate("request-carries-unapproved:concurrent", fmt.Sprintf("a request of a concurrent history carries the unapproved counter private/thing: %.300s", q.Body), rp())
+				break
+			}
 		}
 	}
 	ackedBodies := map[string]map[string]int{}
